@@ -150,6 +150,21 @@ def check_derived(h: Harness):
             h.agree("RandomSource.pop_random", ["pop_random", xs, [d]], [item, lst], nontrivial=n > 1)
             h.holds("RandomSource.pop_random", "does-not-remove-returned", ["prop_pop", xs, item, lst],
                     f"pop_random({xs}) returned {item} leaving {lst}", [xs, d])
+    # ... and long lists (several hundred elements: indices beyond anything an interpreter treats specially), draws at both ends
+    for n in (256, 257, 258, 259, 300, 1000) if not h.thorough else (255, 256, 257, 258, 259, 260, 300, 511, 513, 1000, 5000):
+        xs = list(range(1000, 1000 + n))
+        for d in (0, 1, n - 2, n - 1, n, n // 2):
+            lst = list(xs)
+            s = ScriptedSource([d])
+            try:
+                item = s.pop_random(lst)
+            except Exception as e:  # noqa: BLE001
+                h.fail("RandomSource.pop_random", "raises", f"pop_random on a list of {n} elements, draw {d}: {type(e).__name__}: {e}; the list now has "
+                       f"{len(lst)} elements", [n, d])
+                continue
+            h.agree("RandomSource.pop_random", ["pop_random", xs, [d]], [item, lst])
+            h.holds("RandomSource.pop_random", "does-not-remove-returned", ["prop_pop", xs, item, lst],
+                    f"pop_random(list of {n}) with draw {d} returned {item} leaving {len(lst)} elements", [n, d])
     h.exhaustive = True
 
 
@@ -435,8 +450,38 @@ def check_float_bounds(h: Harness):
                     h.fail(name + ".random_float", "out-of-bounds", f"{name}.random_float({lo}, {hi}) = {v!r} for genes [{gene}, ...]", [name, lo, hi, gene])
 
 
+def check_seed_kinds_across_processes(h: Harness):
+    """"two sources created with the same seed produce the same stream" -- also when the two are created in two different interpreter
+    processes (a re-run of an experiment), for every kind of seed `random.Random` accepts: ints (negative, huge), floats, strings, bytes"""
+    import os
+    import subprocess
+    import sys
+    code = ("import sys\n"
+            "from geneticengine.random.sources import NativeRandomSource\n"
+            "for seed in (0, 17, -3, 2**70 + 1, 2.5, 'run-1', 'a' * 40, b'worker-7'):\n"
+            "    s = NativeRandomSource(seed)\n"
+            "    print(repr(seed)[:20], [s.randint(-1000, 1000) for _ in range(6)], round(s.random_float(0, 1), 9), s.choice('abcdef'))\n")
+    outs = []
+    for hs in ("1", "2", "random"):
+        env = dict(os.environ, PYTHONHASHSEED=hs, PYTHONPATH=os.environ.get("VERIF_REPO", "/repo"))
+        p = subprocess.run([sys.executable, "-c", code], capture_output=True, text=True, env=env, timeout=120)
+        if p.returncode != 0:
+            h.fail("NativeRandomSource", "raises", f"creating sources with int / float / str / bytes seeds failed: {p.stderr.strip()[-300:]}", [hs])
+            return
+        outs.append(p.stdout.strip().splitlines())
+    h.count("seed-kinds-across-processes")
+    for i, line in enumerate(outs[0]):
+        h.seen(f"seed-kind:{line[:24]}")
+        for j, other in enumerate(outs[1:], 1):
+            if other[i] != line:
+                h.fail("NativeRandomSource", "same-seed-different-stream",
+                       f"two interpreter processes, same seed: one source starts with {line!r}, the other with {other[i]!r}", [i, j])
+                return
+
+
 def check_native(h: Harness):
     rng = h.rng
+    check_seed_kinds_across_processes(h)
     for seed in [0, 1, 123, rng.randrange(10**6)]:
         a, b = NativeRandomSource(seed), NativeRandomSource(seed)
         sa, sb = [], []
